@@ -77,8 +77,11 @@ namespace nmtools::index
             at(result,i) = idx;
         }
 
-        at(result,axis1) = at(indices,meta::ct_v<-1>);
-        at(result,axis2) = at(indices,meta::ct_v<-1>) + offset;
+        // a negative offset selects a diagonal below the main one: it starts at row -offset, column 0
+        auto diag_i = (long long)at(indices,meta::ct_v<-1>);
+        auto m_offset = (long long)offset;
+        at(result,axis1) = (m_offset < 0) ? (diag_i - m_offset) : diag_i;
+        at(result,axis2) = (m_offset < 0) ? diag_i : (diag_i + m_offset);
 
         return result;
     }
